@@ -6,12 +6,18 @@
 #include <unordered_map>
 #include <xercesc/dom/DOMRangeException.hpp>
 #include <xercesc/dom/DOMXPathException.hpp>
+// hidden fields of the view implementations are part of the state key; the orchestrator passes -fno-access-control, the defines
+// below make a plain compile (bin/xv replay) work as well
+#define private public
+#define protected public
 #include <xercesc/dom/impl/DOMDeepNodeListImpl.hpp>
 #include <xercesc/dom/impl/DOMDocumentImpl.hpp>
 #include <xercesc/dom/impl/DOMNodeIteratorImpl.hpp>
 #include <xercesc/dom/impl/DOMRangeImpl.hpp>
 #include <xercesc/dom/impl/DOMTreeWalkerImpl.hpp>
 #include <xercesc/dom/impl/DOMXPathResultImpl.hpp>
+#undef private
+#undef protected
 
 namespace c14 {
 using namespace xercesc;
@@ -78,12 +84,13 @@ struct Sink {  // where discrepancies go (xv::Ctx or nothing during quiet replay
     xv::Ctx* ctx = nullptr;
     std::string history;   // history up to (excluding) the current op
     std::string op;
+    std::string tag;       // extra JSON fields attached to every violation (e.g. the known-defect id of a witness)
     int nviol = 0;
     void viol(const std::string& kind, const std::string& expected, const std::string& observed, const std::string& extra = "") {
         nviol++;
         if (!ctx) return;
         ctx->violation(kind, "\"history\":" + jstr(history) + ",\"op\":" + jstr(op) + ",\"expected\":" + jstr(expected) + ",\"observed\":" + jstr(observed) +
-                                 (extra.empty() ? "" : "," + extra));
+                                 (extra.empty() ? "" : "," + extra) + (tag.empty() ? "" : "," + tag));
         if (ctx->verbose) printf("  VIOLATION %s after [%s] op %s\n    expected: %s\n    observed: %s\n", kind.c_str(), history.c_str(), op.c_str(), expected.c_str(), observed.c_str());
     }
     void count(const std::string& k, uint64_t n = 1) { if (ctx) ctx->count(k, n); }
@@ -421,8 +428,6 @@ struct World {
                 std::string a, b;
                 dumpR(inf.ret, a, firstNew);
                 // implementation side: nodes that are already known keep their id, new ones are anonymous
-                dumpI(retNode, b, false);
-                for (size_t k = 0; k < b.size(); k++) if (b[k] == '?') b[k] = '#';
                 std::string bb = anonymiseUnknown(retNode);
                 if (a != bb) S.viol(std::string("content:") + OPNAME[op.c], a, bb);
                 S.count("fragments_compared"); if (inf.contentNonEmpty) S.count("fragments_nonempty");
